@@ -84,6 +84,43 @@ fn sweep_word_lattice(rep: &Reporter, c: &Counters, op: MulOp, lat: &[u32]) {
     c.sample(json!({"instr": render_instr(&i), "lattice": lat.len(), "cube": !matches!(op, MulOp::Mul | MulOp::Imul)}));
 }
 
+/// word forms on an explicit list of (AX, operand) pairs; DX = 0x1234 for MUL/IMUL, 0 for DIV,
+/// the sign extension of AX for IDIV
+fn sweep_word_pairs(rep: &Reporter, c: &Counters, op: MulOp, pairs: &[(u32, u32)]) {
+    let i = Instr::MulDiv(op, Opnd::R16(R_BX));
+    let site = i.shape();
+    pairs.par_chunks(8192).for_each(|chunk| {
+        with_worker(|wk| {
+            let mut p = match prepare(&i) {
+                Ok(p) => p,
+                Err(e) => {
+                    c.block(format!("{}: {:?}", site, e));
+                    return;
+                }
+            };
+            for (ax, x) in chunk.iter() {
+                let mut pre = make_state(&i, *x, 0, 0xF000 | (*ax as u16 & 1), 0, &p.dc, 0);
+                pre.r.ax = *ax as u16;
+                pre.r.dx = match op {
+                    MulOp::Mul | MulOp::Imul => 0x1234,
+                    MulOp::Div => 0,
+                    MulOp::Idiv => {
+                        if *ax & 0x8000 != 0 {
+                            0xFFFF
+                        } else {
+                            0
+                        }
+                    }
+                };
+                let ex = vars_md(&pre, *x, W::W);
+                wk.case(rep, c, &mut p, &pre, &site, &ex, *ax as u64 + *x as u64, false);
+            }
+            wk.audit(rep, &p, &site);
+            wk.flush(c);
+        })
+    });
+}
+
 /// word DIV/IDIV: for every divisor the dividends around the overflow boundary
 fn sweep_word_div_boundaries(rep: &Reporter, c: &Counters, op: MulOp, stride: u32) {
     let i = Instr::MulDiv(op, Opnd::R16(R_BX));
@@ -341,6 +378,21 @@ pub fn run(tier: &Tier) -> i32 {
     for op in MulOp::ALL {
         sweep_word_lattice(&rep, &c, op, &lat);
     }
+    // operands away from the boundaries and operands in a fixed relation, for every x
+    {
+        let wb = w16_bytes();
+        let mut pairs: Vec<(u32, u32)> = Vec::new();
+        for a in wb.iter() {
+            for b in lat.iter() {
+                pairs.push((*a, *b));
+                pairs.push((*b, *a));
+            }
+        }
+        pairs.extend(w16_relations());
+        for op in MulOp::ALL {
+            sweep_word_pairs(&rep, &c, op, &pairs);
+        }
+    }
     // word MUL/IMUL: denser square
     if tier.thorough {
         let dense = w16_dense(2048);
@@ -381,7 +433,7 @@ pub fn run(tier: &Tier) -> i32 {
     };
     let mut cov = Coverage::default();
     cov.exhaustive = true;
-    cov.rule = "every case = (source instruction, pre-state) executed through Preprocessor+Interpreter and compared with the reference MUL/DIV/BCD semantics (outcome NEXT vs INT 0, AX/DX, CF/OF, frame). Byte forms: all 256 AL x all 256 operands x a set of AH values (all 256 in thorough); word forms: (DX,AX,operand) boundary lattice cubed plus, for every divisor (every 7th in quick), the dividends at the quotient-overflow boundary; all 2^16 AX x AF x CF for the eight adjust instructions; every operand form incl. the implicit registers as explicit operand; 8 end-to-end divide-error programs through the CLI binary Histories: every sequence of up to 3 (thorough 4) instructions over the property's instructions plus a 16-instruction context alphabet (register, memory, stack and flag traffic), with at least one of the property's instructions, as ONE program on ONE machine and ONE Interpreter object from 3 initial states, compared with the reference after every step (whole memory on every 16th run)".into();
+    cov.rule = "every case = (source instruction, pre-state) executed through Preprocessor+Interpreter and compared with the reference MUL/DIV/BCD semantics (outcome NEXT vs INT 0, AX/DX, CF/OF, frame). Byte forms: all 256 AL x all 256 operands x a set of AH values (all 256 in thorough); word forms: (DX,AX,operand) boundary lattice cubed plus, for every divisor (every 7th in quick), the dividends at the quotient-overflow boundary; all 2^16 AX x AF x CF for the eight adjust instructions; every operand form incl. the implicit registers as explicit operand; 8 end-to-end divide-error programs through the CLI binary Word operands also run through 512 values away from the boundaries (every low byte under a fixed high byte and the reverse) against the lattice, both ways round, and through 8 fixed RELATIONS between the two operands (equal, low byte complemented, complemented, successor, bytes swapped, negated, doubled, halved+0x4000) for every 16-bit x. Histories: every sequence of up to 3 (thorough 4) instructions over the property's instructions plus a 16-instruction context alphabet (register, memory, stack and flag traffic), with at least one of the property's instructions, as ONE program on ONE machine and ONE Interpreter object from 3 initial states, compared with the reference after every step (whole memory on every 16th run)".into();
     cov.bounds = json!({"ah_values": ahs.len(), "word_lattice": lat.len(), "divisor_stride": stride, "forms": fs.len(), "sequence_depth": seq_depth, "sequences": seq.sequences, "sequence_steps": seq.steps, "sequence_whole_memory_audits": seq.audits, "tier": tier.name()});
     cov.assumptions = common_assumptions();
     cov.assumptions.push("IDIV whose quotient is exactly -2^(w-1): divide error (8086) or result (later CPUs) both accepted".into());
